@@ -26,21 +26,13 @@ HasTypes(k) == k # "unit_enum" /\ k # "unit_struct" /\ k # "const"
 N2(r) == r.n = 2 \/ (~HasMembers(r.kind) /\ r.n = 0)
 Full == [kind : Kinds, n : 0..3, naming : Namings, tyf : TypeFeatures, deco : Decos, doc : Docs, cfg : Cfgs]
 Base == [kind |-> "struct", n |-> 2, naming |-> "plain", tyf |-> "prim", deco |-> "none", doc |-> "none", cfg |-> "default"]
-\* quick: every pair (kind, x) for each other dimension x, with the remaining dimensions at their base value,
-\* plus all (naming, tyf) and (deco, cfg) pairs on the two richest kinds
-Quick == { r \in Full :
-             \/ /\ r.naming = "plain" /\ r.tyf = "prim" /\ r.deco = "none" /\ r.doc = "none" /\ r.cfg = "default"
-             \/ /\ N2(r) /\ r.tyf = "prim" /\ r.deco = "none" /\ r.doc = "none" /\ r.cfg = "default"
-             \/ /\ N2(r) /\ r.naming = "plain" /\ r.deco = "none" /\ r.doc = "none" /\ r.cfg = "default"
-             \/ /\ N2(r) /\ r.naming = "plain" /\ r.tyf = "prim" /\ r.doc = "none" /\ r.cfg = "default"
-             \/ /\ N2(r) /\ r.naming = "plain" /\ r.tyf = "prim" /\ r.deco = "none"
-             \/ /\ r.kind \in {"struct", "enum_mixed"} /\ r.n \in {1, 3} /\ r.deco = "none" /\ r.doc = "none" /\ r.cfg = "default"
-             \/ /\ r.kind \in {"generic_struct", "generic_enum"} /\ N2(r) /\ r.naming = "plain" /\ r.tyf = "generic" /\ r.doc = "none" }
-\* thorough: all triples that matter for separators: (kind, n, naming, tyf) fully, and (kind, deco, doc, cfg) fully
-Thorough == { r \in Full :
-             \/ r.deco = "none" /\ r.doc = "none" /\ r.cfg = "default"
-             \/ N2(r) /\ r.naming = "plain" /\ r.tyf \in {"prim", "generic"}
-             \/ r.n \in {0, 1} /\ r.naming \in {"plain", "dashed"} /\ r.tyf = "prim" /\ r.cfg = "default" }
+\* number of dimensions (other than the item kind) in which r differs from the base case
+Diff(r) == (IF N2(r) THEN 0 ELSE 1) + (IF r.naming = "plain" THEN 0 ELSE 1) + (IF r.tyf = "prim" THEN 0 ELSE 1)
+           + (IF r.deco = "none" THEN 0 ELSE 1) + (IF r.doc = "none" THEN 0 ELSE 1) + (IF r.cfg = "default" THEN 0 ELSE 1)
+\* quick: every item kind x every PAIR of non-base values (all-pairs over the six dimensions, the rest at base);
+\* thorough: every triple, plus the full naming x type-feature x member-count product
+Quick == { r \in Full : Diff(r) <= 2 }
+Thorough == { r \in Full : Diff(r) <= 3 \/ (r.deco = "none" /\ r.doc = "none" /\ r.cfg = "default") }
 Space == IF Mode = "quick" THEN Quick ELSE Thorough
 
 InScope(r) ==
